@@ -367,7 +367,13 @@ impl<'u> Run<'u> {
                 let cls = s["cls"].as_str().unwrap();
                 let from = self.u.addrs[s["from"].as_str().unwrap()];
                 let ti = s.get("tid").and_then(|x| x.as_i64()).unwrap_or(0);
-                let tid = self.u.tids.get(&ti).copied().unwrap_or(TransactionId::from(0xabcdefu128));
+                let mut tid = self.u.tids.get(&ti).copied().unwrap_or(TransactionId::from(0xabcdefu128));
+                if cls != "response" && self.other_tid_outstanding {
+                    // a peer's request/indication may carry the id of one of our own outstanding requests
+                    if let Some(t) = self.u.tids.values().copied().find(|t| self.agent.request_transaction(*t).is_some()) {
+                        tid = t;
+                    }
+                }
                 let mcls = match cls {
                     "response" => {
                         self.resp_cls_toggle += 1;
